@@ -117,10 +117,17 @@ func runC09(sc *SessScript) *sim.Outcome {
 						if d, err := ref.ParseData(raw[h.Len:]); err == nil {
 							f := d.Fields["mac"]
 							raw[h.Len+f[0]+op.I%20] ^= 0x04
+							if op.F%2 == 1 {
+								// ... or after it: the key has vouched for the genuine message by then, and a refused
+								// copy must not make the receiver forget that it owes the key
+								judge(s.DeliverQ(dir, 0))
+								o.Class("damaged-copy-after")
+							} else {
+								o.Class("damaged-copy-first")
+							}
 							before := len(s.W.Q[1-dir])
 							s.W.Receive(1-dir, ref.Armor(raw))
 							s.W.Q[1-dir] = s.W.Q[1-dir][:before]
-							o.Class("damaged-copy-first")
 						}
 					}
 				}
@@ -260,3 +267,38 @@ func TestProp_C09_Disclosure(t *testing.T) {
 		sim.Judge(rt, "C09disclose", sc)
 	})
 }
+
+// TestProp_C09_Damaged: a damaged copy of a genuine message reaches the receiver before or after the genuine one,
+// at the very start of the session and after 1-3 rounds, in either direction; then enough traffic to retire the pair.
+func TestProp_C09_Damaged(t *testing.T) {
+	si, sn := sim.Shard()
+	idx := 0
+	for _, v := range []int{3, 2} {
+		for dir := 0; dir < 2; dir++ {
+			for k := 0; k < 4; k++ {
+				for order := 0; order < 2; order++ {
+					for tail := 0; tail < 2; tail++ {
+						idx++
+						if idx%sn != si {
+							continue
+						}
+						var ops []SOp
+						for i := 0; i < k; i++ {
+							ops = append(ops, SOp{K: "pp", W: (dir + i) & 1, I: 0, L: 7})
+						}
+						ops = append(ops, SOp{K: "badmac", W: dir, F: order, I: 3 * k})
+						if tail == 0 {
+							ops = append(ops, SOp{K: "pp", W: 1 - dir, I: 2, L: 7}, SOp{K: "pp", W: dir, I: 2, L: 7})
+						} else {
+							ops = append(ops, SOp{K: "burst", W: 1 - dir, I: 2}, SOp{K: "burst", W: dir, I: 2}, SOp{K: "cross", I: 2}, SOp{K: "pp", W: dir, I: 1, L: 7})
+						}
+						sim.Judge(t, "C09damaged", &SessScript{Cfg: SessCfg{V: v, SeedA: 900, SeedB: 951, KeyA: 0, KeyB: 3, Starter: k & 1}, Ops: ops})
+					}
+				}
+			}
+		}
+	}
+	sim.MarkCompleted("C09damaged", true)
+}
+
+func init() { reg("C09damaged", runC09) }
